@@ -6,6 +6,32 @@ import m_rng
 import m_tsplit
 
 
+def crng_scan(chk):
+    """thorough only: every distinct seeding of the .NET generator (2^31 tables) searched for a table that does not meet
+    the strict invariant CInv; supports C19_csharp_seed_entries_partial, recorded in the evidence, never a violation by
+    itself (no property forbids an entry equal to i32::MAX)."""
+    import subprocess, tempfile, shutil, os
+    d = tempfile.mkdtemp(prefix="crngscan")
+    try:
+        exe = os.path.join(d, "scan")
+        c = subprocess.run(["rustc", "-O", os.path.join(VERIF, "tools", "crng_scan.rs"), "-o", exe],
+                           capture_output=True, text=True, timeout=300)
+        if c.returncode != 0:
+            chk.dist("crng_scan.not_run")
+            return
+        r = subprocess.run([exe], capture_output=True, text=True, timeout=1800)
+        first = r.stdout.splitlines()[0] if r.stdout else ""
+        n = int(first.rsplit(":", 1)[1]) if ":" in first else -1
+        chk.dist("crng_scan.seedings_searched", 2 ** 31)
+        chk.dist("crng_scan.seedings_outside_strict_invariant", max(n, 0))
+        if n > 0:
+            chk.sample({"crng_scan": r.stdout.splitlines()[1:6]})
+    except Exception as e:  # the search is supporting material only
+        chk.dist("crng_scan.not_run")
+    finally:
+        shutil.rmtree(d, ignore_errors=True)
+
+
 def run(chk):
     quick = chk.tier == "quick"
     chk.coq_obligations()
@@ -17,6 +43,8 @@ def run(chk):
     m_sort.run(chk, binary, 300 if quick else 6000)
     m_rng.run(chk, binary, 400 if quick else 8000)
     m_tsplit.run(chk, binary, 400 if quick else 8000)
+    if not quick:
+        crng_scan(chk)
     chk.cov["rule"] = ("osu!standard maps (G1: all shapes, format versions 3-14, all object mixes, slider lengths/repeats, hit "
                        "sound flags, timing setups; G2 mutations of the shipped map) x target taiko/catch/mania x key mods 1K-9K "
                        "(legacy bits), 10K (intermode), none; checked on every converted map: objects non-decreasing, "
